@@ -109,55 +109,159 @@ Proof.
 Qed.
 End Dict.
 
+Lemma zget_app {V} (a b : list (Z * V)) k : zget (a ++ b) k = match zget a k with Some v => Some v | None => zget b k end.
+Proof. induction a as [|[k' v'] r IH]; cbn; [reflexivity|]. destruct (k =? k'); [reflexivity | apply IH]. Qed.
+Lemma zset_notin_app {V} (d : list (Z * V)) k v : ~ In k (keys d) -> zset d k v = d ++ [(k, v)].
+Proof.
+  induction d as [|[k0 v0] r IH]; cbn; [reflexivity|]. intros H.
+  destruct (Z.eqb_spec k k0); [exfalso; apply H; left; congruence|]. f_equal. apply IH. tauto.
+Qed.
+Lemma keys_app {V} (a b : list (Z * V)) : keys (a ++ b) = keys a ++ keys b.
+Proof. unfold keys. apply map_app. Qed.
+Lemma zmem_false_notin x l : zmem x l = false <-> ~ In x l.
+Proof. rewrite <- zmem_In. destruct (zmem x l); split; intros; congruence. Qed.
+Lemma In_zget_some {V} (d : list (Z * V)) k v : In (k, v) d -> exists w, zget d k = Some w.
+Proof. intros H. apply keys_In_zget. change k with (fst (k, v)). now apply in_map. Qed.
+
 (* ================================================================================================ *)
-(* well-formedness of one molecule in a heap *)
+(* adjacency as a partial function (atom, atom) -> bond reference *)
 Definition aslot (adj : adjacency) (n m : Z) : option ref :=
   match zget adj n with Some r => zget r m | None => None end.
 Lemma slot_of_aslot o n m : slot_of o n m = aslot (o_adj o) n m.
 Proof. unfold slot_of, row, aslot. now destruct (zget (o_adj o) n). Qed.
 
-Record wfa (h : hp) (atoms : list (Z * acell)) (adj : adjacency) : Prop := mkWfa {
-  wf_keys : keys adj = keys atoms;
-  wf_nodup : NoDup (keys atoms);
-  wf_sym : forall n m r, aslot adj n m = Some r -> aslot adj m n = Some r;
-  wf_loop : forall n, aslot adj n n = None;
-  wf_rows : forall n r, zget adj n = Some r -> NoDup (keys r);
-  wf_refs : forall n m r, aslot adj n m = Some r -> exists c, hget h r = Some c;
-  wf_inj : forall n m n' m' r, aslot adj n m = Some r -> aslot adj n' m' = Some r -> (n' = n /\ m' = m) \/ (n' = m /\ m' = n)
-}.
-Definition wf (h : hp) (o : mobj) : Prop := wfa h (o_atoms o) (o_adj o).
-Definition heap_ok (h : hp) : Prop := forall r c, hget h r = Some c -> r < h_next h.
-
 Lemma aslot_row adj n m r : aslot adj n m = Some r -> exists rw, zget adj n = Some rw /\ zget rw m = Some r.
 Proof. unfold aslot. destruct (zget adj n); [eauto | discriminate]. Qed.
 Lemma aslot_key_l adj n m r : aslot adj n m = Some r -> In n (keys adj).
 Proof. intros H. apply aslot_row in H. destruct H as [rw [H _]]. eapply zget_In_keys; eauto. Qed.
+Lemma aslot_zset adj k rw x y : aslot (zset adj k rw) x y = if x =? k then zget rw y else aslot adj x y.
+Proof. unfold aslot. rewrite zget_zset. now destruct (x =? k). Qed.
+Lemma aslot_zdel adj k x y : aslot (zdel adj k) x y = if x =? k then None else aslot adj x y.
+Proof. unfold aslot. rewrite zget_zdel. now destruct (x =? k). Qed.
+Lemma aslot_app adj k x y : ~ In k (keys adj) -> aslot (adj ++ [(k, [])]) x y = aslot adj x y.
+Proof.
+  intros H. unfold aslot. rewrite zget_app. destruct (zget adj x) eqn:E; [reflexivity|]. cbn.
+  destruct (x =? k); reflexivity.
+Qed.
+
+(* no duplicate keys, in the outer dict and in every row *)
+Definition nd (adj : adjacency) : Prop := NoDup (keys adj) /\ forall n rw, zget adj n = Some rw -> NoDup (keys rw).
+Lemma nd_zset adj k rw : nd adj -> NoDup (keys rw) -> nd (zset adj k rw).
+Proof.
+  intros [N R] H. split; [now apply NoDup_keys_zset|]. intros n rw'. rewrite zget_zset.
+  destruct (n =? k); [intros E; inversion E; now subst | apply R].
+Qed.
+Lemma nd_zdel adj k : nd adj -> nd (zdel adj k).
+Proof.
+  intros [N R]. split; [now apply NoDup_keys_zdel|]. intros n rw'. rewrite zget_zdel.
+  destruct (n =? k); [discriminate | apply R].
+Qed.
+Lemma nd_app adj k : nd adj -> ~ In k (keys adj) -> nd (adj ++ [(k, [])]).
+Proof.
+  intros [N R] H. split.
+  - rewrite keys_app. cbn. now apply NoDup_snoc.
+  - intros n rw'. rewrite zget_app. destruct (zget adj n) eqn:E.
+    + intros E'; inversion E'; subst. eapply R; eauto.
+    + cbn. destruct (n =? k); [intros E'; inversion E'; constructor | discriminate].
+Qed.
+Lemma nd_In_aslot adj n rw m r : nd adj -> In (n, rw) adj -> In (m, r) rw -> aslot adj n m = Some r.
+Proof.
+  intros [N R] H1 H2. assert (zget adj n = Some rw) as E by now apply In_zget_nodup.
+  unfold aslot. rewrite E. apply In_zget_nodup; [eapply R; eauto | assumption].
+Qed.
+Lemma aslot_In adj n m r : aslot adj n m = Some r -> exists rw, In (n, rw) adj /\ In (m, r) rw.
+Proof. intros H. apply aslot_row in H. destruct H as [rw [A B]]. exists rw. split; now apply zget_In. Qed.
+
+(* ================================================================================================ *)
+(* well-formedness of one molecule in a heap *)
+Definition arefs (adj : adjacency) : list ref := refs_of_adj adj.
+Record wfa (h : hp) (atoms : list (Z * acell)) (adj : adjacency) : Prop := mkWfa {
+  wf_keys : keys adj = keys atoms;
+  wf_nd : nd adj;
+  wf_sym : forall n m r, aslot adj n m = Some r -> aslot adj m n = Some r;
+  wf_loop : forall n, aslot adj n n = None;
+  wf_valid : forall r, In r (arefs adj) -> exists c, hget h r = Some c;
+  wf_lt : forall r, In r (arefs adj) -> r < h_next h
+}.
+Definition wf (h : hp) (o : mobj) : Prop := wfa h (o_atoms o) (o_adj o).
+
 Lemma wfa_nbr_atom h atoms adj n m r : wfa h atoms adj -> aslot adj n m = Some r -> In m (keys atoms).
 Proof. intros W H. rewrite <- (wf_keys _ _ _ W). eapply aslot_key_l. eapply wf_sym; eauto. Qed.
 Lemma wfa_self_atom h atoms adj n m r : wfa h atoms adj -> aslot adj n m = Some r -> In n (keys atoms).
 Proof. intros W H. rewrite <- (wf_keys _ _ _ W). eapply aslot_key_l; eauto. Qed.
 Lemma wfa_neq h atoms adj n m r : wfa h atoms adj -> aslot adj n m = Some r -> n <> m.
 Proof. intros W H E. subst. rewrite (wf_loop _ _ _ W) in H. discriminate. Qed.
-Lemma In_row_aslot adj n rw m r : NoDup (keys rw) -> zget adj n = Some rw -> In (m, r) rw -> aslot adj n m = Some r.
-Proof. intros N H I. unfold aslot. rewrite H. now apply In_zget_nodup. Qed.
+
+(* references held by an adjacency *)
+Lemma In_arefs adj r : In r (arefs adj) <-> exists n rw m, In (n, rw) adj /\ In (m, r) rw.
+Proof.
+  unfold arefs, refs_of_adj. rewrite in_flat_map. split.
+  - intros [[n rw] [H1 H2]]. cbn in H2. apply in_map_iff in H2. destruct H2 as [[m r'] [E H2]]. cbn in E. subst.
+    exists n, rw, m. tauto.
+  - intros [n [rw [m [H1 H2]]]]. exists (n, rw). split; [assumption|]. cbn. apply in_map_iff. exists (m, r). tauto.
+Qed.
+Lemma aslot_arefs adj n m r : aslot adj n m = Some r -> In r (arefs adj).
+Proof. intros H. apply aslot_In in H. destruct H as [rw [A B]]. apply In_arefs. eauto. Qed.
+Lemma arefs_aslot adj r : nd adj -> In r (arefs adj) -> exists n m, aslot adj n m = Some r.
+Proof. intros N H. apply In_arefs in H. destruct H as [n [rw [m [A B]]]]. exists n, m. eapply nd_In_aslot; eauto. Qed.
+Lemma In_snd_zset (rw : list (Z * ref)) k v r : In r (map snd (zset rw k v)) -> r = v \/ In r (map snd rw).
+Proof.
+  induction rw as [|[k0 v0] t IH]; cbn.
+  - intros [E|[]]; auto.
+  - destruct (k =? k0); cbn; intros [E|E]; auto. apply IH in E. tauto.
+Qed.
+Lemma In_snd_zdel (rw : list (Z * ref)) k r : In r (map snd (zdel rw k)) -> In r (map snd rw).
+Proof. unfold zdel. intros H. apply in_map_iff in H. destruct H as [x [E H]]. apply filter_In in H. apply in_map_iff. exists x. tauto. Qed.
+Lemma In_arefs_zset adj k rw r : In r (arefs (zset adj k rw)) -> In r (map snd rw) \/ In r (arefs adj).
+Proof.
+  unfold arefs, refs_of_adj. induction adj as [|[k0 v0] t IH]; cbn.
+  - rewrite app_nil_r. auto.
+  - destruct (k =? k0); cbn; rewrite !in_app_iff; intros [E|E]; auto. apply IH in E. tauto.
+Qed.
+Lemma In_arefs_zdel adj k r : In r (arefs (zdel adj k)) -> In r (arefs adj).
+Proof.
+  unfold arefs, refs_of_adj, zdel. rewrite !in_flat_map. intros [x [H1 H2]]. apply filter_In in H1. exists x. tauto.
+Qed.
+Lemma arefs_app a b : arefs (a ++ b) = arefs a ++ arefs b.
+Proof. unfold arefs, refs_of_adj. apply flat_map_app. Qed.
+Lemma In_arefs_row adj n rw r : zget adj n = Some rw -> In r (map snd rw) -> In r (arefs adj).
+Proof.
+  intros H1 H2. apply in_map_iff in H2. destruct H2 as [[m r'] [E H2]]. cbn in E. subst.
+  apply In_arefs. exists n, rw, m. split; [now apply zget_In | assumption].
+Qed.
 
 (* heap primitives *)
 Lemma hget_halloc h c r : hget (fst (halloc h c)) r = if r =? h_next h then Some c else hget h r.
 Proof. unfold halloc, hget; cbn. reflexivity. Qed.
 Lemma hnext_halloc h c : h_next (fst (halloc h c)) = h_next h + 1.
 Proof. reflexivity. Qed.
+Lemma snd_halloc h c : snd (halloc h c) = h_next h.
+Proof. reflexivity. Qed.
 Lemma hget_hset h r c r' : hget (hset h r c) r' = if r' =? r then Some c else hget h r'.
 Proof. unfold hset, hget; cbn. apply zget_zset. Qed.
-Lemma heap_ok_halloc h c : heap_ok h -> heap_ok (fst (halloc h c)).
+Lemma hnext_hset h r c : h_next (hset h r c) = h_next h.
+Proof. reflexivity. Qed.
+
+(* the heap may change as long as allocated cells stay allocated and the allocation pointer does not go back *)
+Definition heap_le (h h' : hp) : Prop :=
+  h_next h <= h_next h' /\ forall r c, hget h r = Some c -> exists c', hget h' r = Some c'.
+Lemma heap_le_refl h : heap_le h h.
+Proof. split; [lia | eauto]. Qed.
+Lemma heap_le_trans a b c : heap_le a b -> heap_le b c -> heap_le a c.
+Proof. intros [L1 V1] [L2 V2]. split; [lia|]. intros r x H. apply V1 in H. destruct H as [y H]. eapply V2; eauto. Qed.
+Lemma heap_le_halloc h c : heap_le h (fst (halloc h c)).
 Proof.
-  intros H r c'. rewrite hget_halloc, hnext_halloc. destruct (Z.eqb_spec r (h_next h)); intros E; [lia|].
-  apply H in E. lia.
+  split; [rewrite hnext_halloc; lia|]. intros r x H. rewrite hget_halloc. destruct (r =? h_next h); eauto.
 Qed.
-Lemma heap_ok_hset h r c c0 : heap_ok h -> hget h r = Some c0 -> heap_ok (hset h r c).
+Lemma heap_le_hset h r c c0 : hget h r = Some c0 -> heap_le h (hset h r c).
 Proof.
-  intros H H0 r' c'. rewrite hget_hset. cbn. destruct (Z.eqb_spec r' r); intros E.
-  - subst. now apply H in H0.
-  - now apply H in E.
+  intros H0. split; [rewrite hnext_hset; lia|]. intros r' x H. rewrite hget_hset. destruct (r' =? r); eauto.
 Qed.
-Lemma halloc_fresh h c r c0 : heap_ok h -> hget h r = Some c0 -> r <> h_next h.
-Proof. intros H E. apply H in E. lia. Qed.
+Lemma wfa_heap h h' atoms adj : wfa h atoms adj -> heap_le h h' -> wfa h' atoms adj.
+Proof.
+  intros W [L V]. destruct W. constructor; auto.
+  - intros r H. destruct (wf_valid0 _ H) as [c Hc]. eapply V; eauto.
+  - intros r H. apply wf_lt0 in H. lia.
+Qed.
+Lemma wfa_atoms h atoms atoms' adj : wfa h atoms adj -> keys atoms' = keys atoms -> wfa h atoms' adj.
+Proof. intros W E. destruct W. constructor; auto. congruence. Qed.
